@@ -14,11 +14,43 @@ import time
 from concurrent.futures import ProcessPoolExecutor
 
 
+def _roundtrip_overrides():
+    """Every package source re-emitted by ast.unparse: comments dropped, lines renumbered, quotes/parentheses normalised."""
+    import ast
+    from ..model import REPO
+    ov = {}
+    for root, _, files in os.walk(os.path.join(REPO, "openpectus")):
+        for f in files:
+            if f.endswith(".py"):
+                p = os.path.join(root, f)
+                try:
+                    ov[os.path.relpath(p, REPO)] = ast.unparse(ast.parse(open(p, encoding="utf-8").read()))
+                except (SyntaxError, OSError):
+                    pass
+    return ov
+
+
 def _run_variant(args):
     prop, variant = args
     from ..model import Program, AnchorError, REPO
     from ..resolve import Resolver
     from ..report import Context
+    if variant.get("roundtrip"):
+        mod = importlib.import_module(f"opstatic.rules.{prop}")
+
+        def fnd(ov):
+            prog = Program(overrides=ov)
+            ctx = Context(prop, "quick", prog, Resolver(prog))
+            try:
+                mod.run(ctx)
+                ctx.check_floors(bool(ctx.findings))
+            except AnchorError as ex:
+                return "anchor: " + str(ex)[:150]
+            return {(fd.rule, fd.function, fd.construct) for fd in ctx.findings}
+        a, b = fnd({}), fnd(_roundtrip_overrides())
+        if a == b:
+            return variant["id"], "silent", ""
+        return variant["id"], "false-alarm", f"findings differ after re-formatting every source file: {str(a)[:80]} vs {str(b)[:80]}"
     path = os.path.join(REPO, variant["file"])
     try:
         src = open(path, encoding="utf-8").read()
@@ -72,6 +104,12 @@ def _run_variant(args):
 def run_audit(props: list[str] | None = None, jobs: int = 16) -> dict:
     from .variants import VARIANTS
     todo = [(v["prop"], v) for v in VARIANTS if props is None or v["prop"] in props]
+    rules_dir = os.path.join(os.path.dirname(os.path.dirname(os.path.abspath(__file__))), "rules")
+    allp = sorted(f[:-3] for f in os.listdir(rules_dir) if f.startswith("C") and f.endswith(".py"))
+    for pr in allp:
+        if props is None or pr in props:
+            todo.append((pr, dict(id=f"{pr}-reformat-all", prop=pr, kind="equivalent", roundtrip=True, expect="", file="", find="",
+                                  replace="", why="every source file re-emitted by ast.unparse (comments, line numbers, quoting change)")))
     t0 = time.time()
     results = []
     if todo:
